@@ -33,7 +33,7 @@ pub struct CompositeCase {
     pub hub: u8,
 }
 
-fn all_comps(case: &CompositeCase) -> Vec<AbsGraph> {
+pub fn all_comps(case: &CompositeCase) -> Vec<AbsGraph> {
     let mut v = case.comps.clone();
     if case.hub > 0 {
         v.push(AbsGraph { n: 2, att: vec![(0, 1)] });
@@ -41,16 +41,16 @@ fn all_comps(case: &CompositeCase) -> Vec<AbsGraph> {
     v
 }
 
-struct Layout {
-    n: usize,
+pub struct Layout {
+    pub n: usize,
     /// component of each node and its local index
-    comp_of: Vec<(usize, usize)>,
-    offs: Vec<usize>,
+    pub comp_of: Vec<(usize, usize)>,
+    pub offs: Vec<usize>,
     /// declaration rank of each node
-    rank: Vec<usize>,
+    pub rank: Vec<usize>,
 }
 
-fn layout(case: &CompositeCase) -> Layout {
+pub fn layout(case: &CompositeCase) -> Layout {
     let mut comp_of = vec![];
     let mut offs = vec![];
     for (c, g) in all_comps(case).iter().enumerate() {
@@ -69,12 +69,33 @@ fn layout(case: &CompositeCase) -> Layout {
     Layout { n, comp_of, offs, rank }
 }
 
-fn label_of(case: &CompositeCase, lay: &Layout, node: usize) -> String {
+pub fn label_of(case: &CompositeCase, lay: &Layout, node: usize) -> String {
     if case.apx {
         format!("x{}_{}", lay.rank[node], lay.comp_of[node].0)
     } else {
         (lay.rank[node] + 1).to_string()
     }
+}
+
+/// All attacks of the assembled framework as (node, node), hub attacks included, without the repeats.
+pub fn attack_nodes(case: &CompositeCase) -> Vec<(usize, usize)> {
+    let lay = layout(case);
+    let comps = all_comps(case);
+    let mut lines = vec![];
+    for (c, g) in comps.iter().enumerate() {
+        for (a, b) in &g.att {
+            lines.push((lay.offs[c] + *a as usize, lay.offs[c] + *b as usize));
+        }
+    }
+    if case.hub > 0 {
+        let h = lay.offs[comps.len() - 1] + 1;
+        for (c, g) in case.comps.iter().enumerate() {
+            if g.n > 0 {
+                lines.push((h, lay.offs[c] + (case.hub as usize * 7 + c * 3) % g.n));
+            }
+        }
+    }
+    lines
 }
 
 pub fn text(case: &CompositeCase) -> String {
